@@ -313,10 +313,23 @@ def r5_bounds_merge(repo=None):
     m = pyfront.mod("digital_rf_hdf5", repo)
     q = "DigitalRFReader.get_bounds"
     g = m.cfg(q)
+    fdef = m.fn(q)
+    # roles: (this directory's first, last) = the tuple target of the per-directory `<entry>._get_bounds()` call; (merged first,
+    # merged last) = the names returned
+    per = [a for a in ast.walk(fdef) if isinstance(a, ast.Assign) and isinstance(a.value, ast.Call) and isinstance(a.value.func, ast.Attribute)
+           and a.value.func.attr == "_get_bounds" and isinstance(a.targets[0], ast.Tuple) and len(a.targets[0].elts) == 2
+           and all(isinstance(e, ast.Name) for e in a.targets[0].elts)]
+    rets = [x for x in ast.walk(fdef) if isinstance(x, ast.Return) and isinstance(x.value, ast.Tuple) and len(x.value.elts) == 2
+            and all(isinstance(e, ast.Name) for e in x.value.elts)]
+    if len(per) != 1 or len(rets) != 1:
+        raise AnalysisError("%s: per-directory `a, b = <entry>._get_bounds()` (%d) / `return (first, last)` (%d) not found exactly once" % (
+            q, len(per), len(rets)))
+    TF, TL = (e.id for e in per[0].targets[0].elts)
+    MF, ML = (e.id for e in rets[0].value.elts)
     lo = [n for n in g.nodes if n.kind == "cond" and isinstance(n.ast, ast.Compare) and norm(ast.unparse(n.ast)) in (
-        "this_first_sample < first_unix_sample", "first_unix_sample > this_first_sample")]
+        "%s < %s" % (TF, MF), "%s > %s" % (MF, TF))]
     hi = [n for n in g.nodes if n.kind == "cond" and isinstance(n.ast, ast.Compare) and norm(ast.unparse(n.ast)) in (
-        "this_last_sample > last_unix_sample", "last_unix_sample < this_last_sample")]
+        "%s > %s" % (TL, ML), "%s < %s" % (ML, TL))]
     if len(lo) != 1 or len(hi) != 1:
         r.violation(m.rel, q, "merge comparisons: %d lower, %d upper" % (len(lo), len(hi)), "the per-directory bounds are not merged "
                     "with one `<` test for the first sample and one `>` test for the last sample", line=m.fn(q).lineno)
@@ -331,7 +344,7 @@ def r5_bounds_merge(repo=None):
             r.violation(m.rel, q, "`%s` is skipped when `%s` is %s" % (second.label, first.label, "true" if lab == "T" else "false"),
                         "the two merges are mutually exclusive: a directory that extends the start of the channel can no longer also "
                         "extend its end (or vice versa), so the reported bounds miss data of a later session", line=second.line)
-    for n, tgt, src in ((a, "first_unix_sample", "this_first_sample"), (b, "last_unix_sample", "this_last_sample")):
+    for n, tgt, src in ((a, MF, TF), (b, ML, TL)):
         ts = [x for x, l in g.succ[n.id] if l == "T"]
         st = [x for x in g.nodes if isinstance(x.ast, ast.Assign) and norm(ast.unparse(x.ast)) == "%s = %s" % (tgt, src)
               and x.id in g.reach(ts, skip_labels=("back", "exc"))]
@@ -384,10 +397,12 @@ def r7_usable_after_a_refusal(repo=None):
     reach = g.reach([b for s_ in name_stores for b, _l in g.succ[s_.id]], avoid=[h.id for h in handle_stores])
     refused = [n for n in err_rets if n.id in reach]
     wf = tu.fn("digital_rf_write_samples_to_file")
-    ones = [n for n in wf.walk() if n.kind == "BinaryOperator" and n.opcode == "=" and n.children[0].path() == "file_exists"
+    from . import c04
+    FE = c04.exists_flag(wf)
+    ones = [n for n in wf.walk() if n.kind == "BinaryOperator" and n.opcode == "=" and n.children[0].path() == FE
             and n.children[1].intval() == 1]
     if not ones:
-        raise AnalysisError("digital_rf_write_samples_to_file: assignment file_exists = 1 not found")
+        raise AnalysisError("digital_rf_write_samples_to_file: assignment %s = 1 not found" % FE)
     H = OBJ + "->hdf5_file"
     for o in ones:
         f = cbool.path_condition(o, wf)
